@@ -194,6 +194,8 @@ def rename_spec(tree, mapping, keep=()):
     class R(ast.NodeTransformer):
         def visit_Name(self, n):
             if n.id in mapping and n.id not in keep:
-                return ast.copy_location(ast.Name(id=mapping[n.id], ctx=n.ctx), n)
+                # an explicit reference to the program local (its new name may coincide with a ghost name of the contracts)
+                return ast.copy_location(ast.Call(func=ast.Name(id='__local__', ctx=ast.Load()),
+                                                  args=[ast.Constant(mapping[n.id])], keywords=[]), n)
             return n
     return ast.fix_missing_locations(R().visit(tree))
